@@ -114,11 +114,23 @@ pub fn explore<'env>(
             let runnable: Vec<usize> = (0..n).filter(|&i| st.ready[i] && !st.done[i]).collect();
             drop(st);
             if out.violation.is_none() {
-                out.violation = monitor(&StepView {
-                    ran: last,
-                    step: out.steps,
-                    yields: &yields,
-                });
+                // a panicking monitor must not unwind out of the scope while the logical threads
+                // are parked (the scope would wait for them forever)
+                let verdict = std::panic::catch_unwind(std::panic::AssertUnwindSafe(|| {
+                    monitor(&StepView {
+                        ran: last,
+                        step: out.steps,
+                        yields: &yields,
+                    })
+                }));
+                out.violation = match verdict {
+                    Ok(v) => v,
+                    Err(p) => Some(format!(
+                        "monitor panicked after atomic step {}: {}",
+                        out.steps,
+                        crate::sim::panic_msg(&p)
+                    )),
+                };
             }
             if runnable.is_empty() {
                 break;
